@@ -36,7 +36,7 @@ func main() {
 		child(os.Args[2:])
 		return
 	}
-	Main("C14", checkC14, iogen.Gen)
+	Main("C14", checkC14, iogen.Gen, stateGen)
 }
 
 type tri = [3][3]float64
